@@ -914,6 +914,12 @@ func replayFollower(rep *kit.Report, bi int, b kit.Behaviour) {
 			rep.Violate(prop, kindOf(err), fmt.Sprintf("[follower] step %d %s: %v", si+1, kit.JSON(call), err), replayCase)
 			break
 		}
+		if kit.Str(st.Ev, "a") == "Tick" && kit.Bool(kit.Map(st.Ev, "res"), "ck") != kit.Bool(res, "ck") {
+			// when a checkpoint is submitted is scheduling, which C06 does not constrain
+			rep.Infra("behaviour %d step %d: the reactor's checkpoint schedule differs from the specification's (submitted: spec=%v impl=%v)",
+				bi, si+1, kit.Bool(kit.Map(st.Ev, "res"), "ck"), kit.Bool(res, "ck"))
+			break
+		}
 		if d := kit.Diff(st.Ev["res"], res); d != "" {
 			rep.Violate(prop, "reply", fmt.Sprintf("[follower] step %d %s: %s", si+1, kit.JSON(call), d),
 				map[string]any{"behaviour": b, "step": si + 1, "observed": res})
